@@ -83,7 +83,7 @@ class C17:
             c = {
                 "builder": rng.choice(BUILDERS), "app_dir": rng.choice(APPDIRS),
                 "buildpacks": [rng.choice(BPS) for _ in range(rng.randint(0, 3))], "benv": benv, "benv_calls": benv_calls,
-                "pre": rng.random() < 0.4,
+                "pre": rng.random() < 0.4, "app_dir_via_setter": rng.random() < 0.3,
                 "entrypoint": rng.choice([None] + VALS) if rng.random() < 0.7 else None,
                 "command": None if rng.random() < 0.3 else [rng.choice(VALS) for _ in range(rng.randint(0, 3))],
                 "cenv": cenv, "cenv_calls": cenv_calls, "ports": sorted(set(rng.choice(PORTS) for _ in range(rng.randint(0, 3)))),
@@ -96,6 +96,7 @@ class C17:
         def b(x):
             return list(x.encode())
         cfg = {"builder": b(c["builder"]), "app_dir": b(c["app_dir"]), "buildpacks": [b(x) for x in c["buildpacks"]],
+               "app_dir_via_setter": c.get("app_dir_via_setter", False),
                "env": [] if "benv_calls" in c else [[b(k), b(v)] for k, v in c["benv"].items()],
                "env_calls": [{"via": x["via"], "pairs": [[b(k), b(v)] for k, v in x["pairs"]]} for x in c.get("benv_calls", [])],
                "expected": "success", "pre": "touch" if c["pre"] else None}
